@@ -310,7 +310,28 @@ func (c *Ctx) checkBitmapWire(cfg TraceConfig) {
 		okS, okD, okG := true, true, true
 		sawS, sawD := false, false
 		lenSym := &Sym{Kind: KOp, Name: "len", Args: []*Sym{{Kind: KParam, Ref: unmarshal.Params[1], Typ: unmarshal.Params[1].Type()}}, Typ: types.Typ[types.Int]}
+		recvKey := "$" + unmarshal.Params[0].Name()
 		for _, t := range traces {
+			// in the sparse form every element is added to what the bitmap already holds (SetI16, or an OR into its
+			// word): a word assigned outright forgets the members decoded into it earlier, so the result depends on
+			// the order of the elements (only Marshal's own ascending output would survive)
+			sparsePath := false
+			for _, e := range t.Events {
+				if e.Kind == EvCall && strings.HasSuffix(e.callName(), "littleEndian).Uint16") {
+					sparsePath = true
+				}
+			}
+			if sparsePath {
+				for i, e := range t.Events {
+					if e.Kind == EvStore && e.Addr.Kind == KIndexAddr && e.Addr.Args[0].root().Key() == recvKey && okS {
+						keeps := e.Old != nil && e.Val.Kind == KBin && e.Val.Op == token.OR && (e.Val.Args[0].Key() == e.Old.Key() || e.Val.Args[1].Key() == e.Old.Key())
+						if !keeps {
+							okS = false
+							c.violated("C09.wire-form", "Unmarshal sparse", e.Pos, "a word of the bitmap is assigned outright while decoding the sparse form (not OR-ed into, not set member by member): members decoded into that word earlier are lost, the decoded set depends on the order of the elements", c.witness(t, i)...)
+						}
+					}
+				}
+			}
 			for i, e := range t.Events {
 				if e.Kind != EvCall {
 					continue
